@@ -1802,6 +1802,28 @@ class Interp:
             return "Option"
         return None
 
+    def _resolve_into(self, v, ty, st, callnode, aexpr=None):
+        """An argument written `x.into()` means nothing until the parameter type is known: with a parameter of a crate type T
+        that has an `impl From<..> for T`, it is that conversion applied to x (when it has one outcome and no effect)."""
+        src_v = None
+        if isinstance(v, dict) and v.get("v") == "hole" and v.get("kind") == "mcall" and v.get("method") == "into" and not v.get("args"):
+            src_v = v.get("recv")
+        elif aexpr is not None and rx.peel(aexpr).get("k") == "mcall" and rx.peel(aexpr)["m"] == "into" and not rx.peel(aexpr)["args"] and self._value_type(v) != norm_ty(ty or "").lstrip("&").split("<")[0]:
+            src_v = v  # `.into()` was read as the identity on the way: the value is still the source of the conversion
+        if src_v is None:
+            return v
+        tgt = norm_ty(ty or "").lstrip("&").split("<")[0]
+        if tgt not in self.f.structs and tgt not in self.f.enums:
+            return v
+        k_ = self._conversion_impl(tgt, "from", src_v, st)
+        if k_ is None:
+            return v
+        v = dict(v) if False else v
+        res = self.call_fn(k_, [src_v], st.fork(), callnode, force=True)
+        if len(res) == 1 and not res[0][0].effects[len(st.effects):] and res[0][0].ret is None:
+            return res[0][1]
+        return v
+
     def _conversion_impl(self, target, method, arg, st):
         """key of the crate's `impl From<X> for Target` / `TryFrom<X>` whose X is the type of `arg`; the only impl when there is
         just one"""
@@ -1977,11 +1999,17 @@ class Interp:
             s1.env = {"__layout": saved_env.get("__layout"), "__fn": fn}
             s1.ret = None
             names = [n for n, _ in fn.params]
-            for (n, ty), v in zip(fn.params, argv):
+            for i_, ((n, ty), v) in enumerate(zip(fn.params, argv)):
+                v = self._resolve_into(v, ty, s1, callnode)
                 if n:
                     if isinstance(v, dict) and v.get("v") == "hole" and not v.get("ty"):
                         v = dict(v, ty=ty.lstrip("&"))
                     s1.env[n] = v
+                else:
+                    # a parameter written as a pattern: `fn from((pattern, insensitive): (&str, bool))`
+                    ins_ = [x for x in fn.node.get("inputs", []) if x.get("pat") is not None]
+                    if i_ < len(ins_) and ins_[i_]["pat"].get("k") in ("tuple", "tstruct", "struct", "typed"):
+                        self.bind_pattern(ins_[i_]["pat"], v, s1)
             # a text the caller handed over by `&mut` (a String being built, a formatter modelled as one): what the callee
             # appended is in the caller's variable afterwards
             byref = []
@@ -2650,9 +2678,10 @@ class Interp:
             if self_val is not None:
                 s1.env["self"] = self_val
             s1.ret = None
-            for (n, ty), v in zip([p_ for p_ in fn.params if p_[0] != "self"], argv):
+            aexprs = (callnode.get("args") or []) if isinstance(callnode, dict) and callnode.get("k") in ("mcall", "call") else []
+            for i_, ((n, ty), v) in enumerate(zip([p_ for p_ in fn.params if p_[0] != "self"], argv)):
                 if n:
-                    s1.env[n] = v
+                    s1.env[n] = self._resolve_into(v, ty, s1, callnode, aexprs[i_] if i_ < len(aexprs) else None)
             # `&mut self` on a record value held in a local of the caller: the record the method leaves behind is the caller's
             # variable afterwards (a receiver that is no plain local cannot be written back: not understood)
             wb_ = None
